@@ -599,8 +599,17 @@ def c18(c):
     units = guest_libs() + [
         dict(name="c18_tsan", srcs=[D + "c18_threads.cpp"], build="tsan", defs=EXC, libs=["-ldl"], needs=["libguest1.so", "libguest2.so"]),
         dict(name="c18_tsan_lockwrap", srcs=[D + "c18_threads.cpp"], build="tsan", defs=EXC + ["C18_LOCK_WRAPPER"], libs=["-ldl"], needs=["libguest1.so", "libguest2.so"]),
+        # the same driver, uninstrumented, under valgrind's helgrind: a second happens-before detector that also sees accesses made
+        # inside the (uninstrumented) libstdc++ .so on RLBox's behalf (red-black tree rebalancing of the std::map members)
+        dict(name="c18_plain", srcs=[D + "c18_threads.cpp"], build="plain1", defs=EXC, libs=["-ldl"], needs=["libguest1.so", "libguest2.so"]),
     ]
     runs = []
+    HG = ["valgrind", "--tool=helgrind", "-q", "--fullpath-after=", "--error-exitcode=0"]
+    for b, bn in enumerate(["model", "noop", "dylib"]):
+        for nt in ([4] if not c.thorough else [2, 4, 8]):
+            for rep in range(1 if not c.thorough else 3):
+                e = dict(guest_env(c)); e["VERIF_C18_STEPS"] = "3000" if not c.thorough else "12000"
+                runs.append(dict(unit="c18_plain", label="c18_helgrind[%s,%dthr,rep%d]" % (bn, nt, rep), args=[b, nt, 100 + rep], env=e, wrap=HG, timeout=3600))
     threads = [2, 4, 8] if not c.thorough else [2, 4, 8, 16]
     reps = 3 if not c.thorough else 6
     for unit in ("c18_tsan", "c18_tsan_lockwrap"):
@@ -615,7 +624,8 @@ def c18(c):
              "allocation and access, example-based pointer store/load (the FINDER model walks the shared live-sandbox registry on each), pointer "
              "arithmetic, by-name invocation, callback through the sandbox, register/unregister, app pointers -- so creates/destroys constantly "
              "overlap other threads' registry lookups. Oracles: any ThreadSanitizer report with an RLBox frame (de-duplicated by innermost RLBox "
-             "function) and the thread-local single-threaded oracles (pointer translated relative to own sandbox, callback saw own sandbox and "
+             "function), any helgrind 'possible data race' whose innermost non-libstdc++ frame is an RLBox header (third build: "
+             "uninstrumented -O1 under valgrind --tool=helgrind, fewer steps) and the thread-local single-threaded oracles (pointer translated relative to own sandbox, callback saw own sandbox and "
              "function, invocation reached own library). Monitor state is per thread and merged after join. The second build routes RLBox's lock "
              "macros (RLBOX_USE_CUSTOM_SHARED_LOCK) through a thin wrapper around std::shared_timed_mutex that injects PRNG yields/sleeps before "
              "acquire and after release and counts contended acquisitions. distinct_nontrivial counts distinct (backend, threads, seed) executions "
